@@ -144,5 +144,117 @@ pub proof fn lemma_scaled_identity(mt: M, b: V, x: V, dim: int, p: int, s: real,
         }
 //@end
 
+//@fn src/distill/schema.rs | - | partial_hard_tanh
+//@bodysub assert!(min_val <= max_val) => assert!(fle(min_val, max_val))
+//@bodysub? = -1.0; => = flit(-1, 1);
+//@bodysub? = -max_val; => = fneg(max_val);
+//@bodysub? = 1.0; => = flit(1, 1);
+//@spec
+    requires row < dim, finite(min_val), finite(max_val), min_val.rv() <= max_val.rv()
+    ensures
+        r.tree.wf(), r.tree.root == Some(0usize), r.in_dim == dim, aff_shape_ok(r.a(), dim),
+        forall|h: Map<usize, nat>, x: V| ranked_down(r.a(), h) && x.len() == dim ==>
+            #[trigger] tree_fn(r.a(), h, 0, x) == Some(x.update(row as int, hard_tanh(x[row as int], min_val.rv(), max_val.rv()))),
+//@hint end
+        proof {
+            let a = dd.a();
+            let n1 = a[0].children[0].unwrap();     // inner decision
+            let t1 = a[0].children[1].unwrap();     // terminal under the root's label 1
+            let t00 = a[n1].children[0].unwrap();
+            let t01 = a[n1].children[1].unwrap();
+            assert((1usize << 1usize) == 2usize) by(bit_vector);
+            assert forall|i: usize| a.dom().contains(i) implies i == 0 || i == n1 || i == t1 || i == t00 || i == t01 by {}
+
+            assert forall|h: Map<usize, nat>, x: V| ranked_down(a, h) && x.len() == dim implies
+                #[trigger] tree_fn(a, h, 0, x) == Some(x.update(row as int, hard_tanh(x[row as int], min_val.rv(), max_val.rv()))) by {
+                let t = x[row as int];
+                lemma_tree_fn_decision(a, h, 0, x); lemma_tree_fn_decision(a, h, n1, x);
+                lemma_tree_fn_leaf(a, h, t1, x); lemma_tree_fn_leaf(a, h, t00, x); lemma_tree_fn_leaf(a, h, t01, x);
+                lemma_dotp_unit(a[0].value.aff.mat.m()[0], x, dim as int, row as int, 0real - 1real);
+                lemma_dotp_unit(a[n1].value.aff.mat.m()[0], x, dim as int, row as int, 1real);
+                assert((0real - 1real) * t == -t && 1real * t == t) by(nonlinear_arith);
+                lemma_scaled_identity(a[t1].value.aff.mat.m(), a[t1].value.aff.bias.v(), x, dim as int, row as int, 0real, max_val.rv());
+                lemma_scaled_identity(a[t01].value.aff.mat.m(), a[t01].value.aff.bias.v(), x, dim as int, row as int, 0real, min_val.rv());
+                assert(0real * t + max_val.rv() == max_val.rv() && 0real * t + min_val.rv() == min_val.rv()) by(nonlinear_arith);
+                assert(x.update(row as int, t) =~= x);
+            }
+        }
+//@end
+
+//@fn src/distill/schema.rs | - | partial_hard_shrink
+//@bodysub? = -lambda; => = fneg(lambda);
+//@bodysub? = 1.0; => = flit(1, 1);
+//@bodysub? = -1.0; => = flit(-1, 1);
+//@spec
+    requires row < dim, finite(lambda)
+    ensures
+        r.tree.wf(), r.tree.root == Some(0usize), r.in_dim == dim, aff_shape_ok(r.a(), dim),
+        // x if |x| > lambda else 0, boundary points |x| == lambda included
+        forall|h: Map<usize, nat>, x: V| ranked_down(r.a(), h) && x.len() == dim ==>
+            #[trigger] tree_fn(r.a(), h, 0, x) == Some(x.update(row as int, hard_shrink(x[row as int], lambda.rv()))),
+//@hint end
+        proof {
+            let a = dd.a();
+            let n1 = a[0].children[1].unwrap();     // inner decision (label 1: x <= lambda)
+            let t1 = a[0].children[0].unwrap();     // terminal for x > lambda
+            let t00 = a[n1].children[0].unwrap();
+            let t01 = a[n1].children[1].unwrap();
+            assert((1usize << 1usize) == 2usize) by(bit_vector);
+            assert forall|i: usize| a.dom().contains(i) implies i == 0 || i == n1 || i == t1 || i == t00 || i == t01 by {}
+            assert forall|h: Map<usize, nat>, x: V| ranked_down(a, h) && x.len() == dim implies
+                #[trigger] tree_fn(a, h, 0, x) == Some(x.update(row as int, hard_shrink(x[row as int], lambda.rv()))) by {
+                let t = x[row as int];
+                lemma_tree_fn_decision(a, h, 0, x); lemma_tree_fn_decision(a, h, n1, x);
+                lemma_tree_fn_leaf(a, h, t1, x); lemma_tree_fn_leaf(a, h, t00, x); lemma_tree_fn_leaf(a, h, t01, x);
+                lemma_dotp_unit(a[0].value.aff.mat.m()[0], x, dim as int, row as int, 1real);
+                lemma_dotp_unit(a[n1].value.aff.mat.m()[0], x, dim as int, row as int, 0real - 1real);
+                assert((0real - 1real) * t == -t && 1real * t == t) by(nonlinear_arith);
+                assert(x.update(row as int, t) =~= x);
+            }
+        }
+//@end
+
+//@fn src/distill/schema.rs | - | partial_hard_sigmoid
+//@bodysub? = -1.0; => = flit(-1, 1);
+//@bodysub? = -3.; => = flit(-3, 1);
+//@bodysub? = 1.0; => = flit(1, 1);
+//@bodysub? = 1.; => = flit(1, 1);
+//@bodysub? = 1. / 6.; => = fdiv(flit(1, 1), flit(6, 1));
+//@bodysub? = 0.5; => = flit(1, 2);
+//@bodysub? = 0.; => = flit(0, 1);
+//@spec
+    requires row < dim
+    ensures
+        r.tree.wf(), r.tree.root == Some(0usize), r.in_dim == dim, aff_shape_ok(r.a(), dim),
+        forall|h: Map<usize, nat>, x: V| ranked_down(r.a(), h) && x.len() == dim ==>
+            #[trigger] tree_fn(r.a(), h, 0, x) == Some(x.update(row as int, hard_sigmoid(x[row as int]))),
+//@hint end
+        proof {
+            let a = dd.a();
+            let n1 = a[0].children[0].unwrap();     // inner decision
+            let t1 = a[0].children[1].unwrap();     // terminal under the root's label 1
+            let t00 = a[n1].children[0].unwrap();
+            let t01 = a[n1].children[1].unwrap();
+            assert((1usize << 1usize) == 2usize) by(bit_vector);
+            assert forall|i: usize| a.dom().contains(i) implies i == 0 || i == n1 || i == t1 || i == t00 || i == t01 by {}
+
+            assert forall|h: Map<usize, nat>, x: V| ranked_down(a, h) && x.len() == dim implies
+                #[trigger] tree_fn(a, h, 0, x) == Some(x.update(row as int, hard_sigmoid(x[row as int]))) by {
+                let t = x[row as int];
+                lemma_tree_fn_decision(a, h, 0, x); lemma_tree_fn_decision(a, h, n1, x);
+                lemma_tree_fn_leaf(a, h, t1, x); lemma_tree_fn_leaf(a, h, t00, x); lemma_tree_fn_leaf(a, h, t01, x);
+                lemma_dotp_unit(a[0].value.aff.mat.m()[0], x, dim as int, row as int, 0real - 1real);
+                lemma_dotp_unit(a[n1].value.aff.mat.m()[0], x, dim as int, row as int, 1real);
+                assert((0real - 1real) * t == -t && 1real * t == t) by(nonlinear_arith);
+                lemma_scaled_identity(a[t1].value.aff.mat.m(), a[t1].value.aff.bias.v(), x, dim as int, row as int, 0real, 1real);
+                lemma_scaled_identity(a[t01].value.aff.mat.m(), a[t01].value.aff.bias.v(), x, dim as int, row as int, 0real, 0real);
+                assert(mset(mset(eye(dim as int), row as int, row as int, 0real), row as int, row as int, 0real) =~~= mset(eye(dim as int), row as int, row as int, 0real));
+                lemma_scaled_identity(a[t00].value.aff.mat.m(), a[t00].value.aff.bias.v(), x, dim as int, row as int, 1real / 6real, 1real / 2real);
+                assert(0real * t + 1real == 1real && 0real * t + 0real == 0real) by(nonlinear_arith);
+                assert((1real / 6real) * t + 1real / 2real == t / 6real + 1real / 2real) by(nonlinear_arith);
+            }
+        }
+//@end
+
 } // verus!
 fn main() {}
